@@ -85,15 +85,20 @@ func driveC11(p *Pool, r *evid.Run) {
 			pols = append(pols, "slow:"+role)
 		}
 	}
-	var scns []Scn
+	var scns, slowScns []Scn
 	for _, vr := range variants {
 		for _, pol := range pols {
 			for _, cp := range []int{1, 64} {
-				scns = append(scns, mk(pol, cp, vr))
+				if strings.HasPrefix(pol, "slow:") {
+					slowScns = append(slowScns, mk(pol, cp, vr))
+				} else {
+					scns = append(scns, mk(pol, cp, vr))
+				}
 			}
 		}
 	}
 	exploreAll(p, r, "C11", scns, bound, 0)
-	r.Add("schedule_scenarios", int64(len(scns)))
+	exploreAll(p, r, "C11", slowScns, 1, 0) // the slow-site policies at bound 1 in both tiers
+	r.Add("schedule_scenarios", int64(len(scns)+len(slowScns)))
 	r.Set("schedule_completed_bound", bound)
 }
